@@ -1,9 +1,13 @@
 /-
   Props/C06.lean — PROPERTY THEOREMS for C06 (a noise-free copy of an interior reference region
   is placed exactly).  PARTIAL: the theorems carry the LOGIC — given a seed within 200 bp of the
-  true offset the candidate is exactly the true pairs —; that FFT cross-correlation, peak picking
-  and refinement RETURN such a seed is runtime behaviour, exercised by the harness's sweep over
-  the property's stated domain (which also checks the theorem's hypothesis on every instance).
+  true offset the candidate is exactly the true pairs; the secondary correlation of an exact copy
+  is maximal at the true lag and a maximal plateau flanked by lower samples is returned as a seed
+  (the secondary stage is inside the model, `Coma/Peaks.lean`) —; that the PRIMARY float
+  correlation selects a peak near the true placement, and that the maximal plateau of the secondary
+  correlation lies within 200 bp of it, is exercised by the harness's sweep over the property's
+  stated domain (which also checks the theorem's hypothesis on every instance) and by the REFINE /
+  PRIMARY streams with planted copies.
 
   Models: `alignerAlign` with `defaultParams` (sp 1000, dp 1, su −250, d 1500, ms 1000, bs 1200),
   `toBp` (bin centre, src/correlation/optical_map.py:26-28), `bestRow`.
@@ -15,6 +19,7 @@ import Props.C05
 import Props.C16
 import Proofs.Exact
 import Proofs.Corr
+import Proofs.PeaksMax
 namespace Coma.Props
 open Coma Coma.Spec
 
@@ -75,6 +80,32 @@ theorem C06_normalised_peak (ref q : List Nat) (hr : Coma.Proofs.Bits ref) (hq :
 theorem C06_corr_length (ref q : List Nat) (h : q.length ≤ ref.length) :
     (corrValid ref q).length = ref.length - q.length + 1 :=
   Coma.Proofs.corrValid_length ref q h
+
+/-- the secondary correlation exactly as `refine` computes it (`scipy.signal.correlate` on the two blurred
+    integer vectors): where the query vector is covered bit for bit by the reference window vector — an
+    exact copy at lag `k` — it takes the largest value any lag can take -/
+theorem C06_secondary_copy_max (rs qs corr : List Nat) (k : Nat) (hr : Coma.Proofs.Bits rs) (hq : Coma.Proofs.Bits qs)
+    (hk : k + qs.length ≤ rs.length) (hc : correlate rs qs = .ok corr)
+    (hcov : ∀ j, j < qs.length → qs.getD j 0 = 1 → rs.getD (k + j) 0 = 1) :
+    corr[k]? = some (sumNat qs) ∧ ∀ y ∈ corr, y ≤ sumNat qs :=
+  Coma.Proofs.correlate_copy_max rs qs corr k hr hq hk hc hcov
+
+/-- and a plateau of the global maximum (at least the height threshold) with a sample of at most 19/20 of
+    it on either side passes `find_peaks` as `refine` calls it: its midpoint becomes a seed -/
+theorem C06_maximum_is_a_seed (thr : Rat) (x : List Int) (l r : Nat) (v : Int)
+    (hpl : Coma.Proofs.IsPlateau x l r) (hv : x[l]? = some v) (hmax : maxInit0 x = v) (hthr : thr ≤ (v : Rat))
+    (hleft : ∃ i y, i < l ∧ x[i]? = some y ∧ 20 * y ≤ 19 * v)
+    (hright : ∃ j y, r < j ∧ x[j]? = some y ∧ 20 * y ≤ 19 * v) :
+    ((l + r) / 2, v) ∈ findPeaksSecondary thr x :=
+  Coma.Proofs.findPeaks_max_plateau thr x l r v hpl hv hmax hthr hleft hright
+
+/-- non-vacuity of the two: a three-label molecule against a reference that contains it (bins of 100 bp,
+    blur 1): the correlation peaks with the number of set query bits (7) and the peak is the seed -/
+example : (refineCorrelation { res := 100, blur := 1, margin := 600, thr := 5, keep := 10 }
+            { id := 1, length := 4000, positions := [300, 1000, 1700, 2100, 3300] }
+            { id := 2, length := 1101, positions := [0, 700, 1100] } false 1000).toOption
+          = some [2, 2, 2, 2, 3, 5, 7, 5, 3, 2, 3, 3, 3] ∧
+    findPeaksSecondary 5 [2, 2, 2, 2, 3, 5, 7, 5, 3, 2, 3, 3, 3] = [(6, 7)] := by decide +kernel
 
 /-- non-vacuity: a concrete instance of the hypotheses (10 labels, window of 5, reverse strand,
     seed 200 bp off) -/
